@@ -64,6 +64,12 @@ pub fn current_opts_json() -> Value {
     CUR.with(|c| c.borrow().as_ref().map(|(pid, o, _)| json!({"cross_host": host, "pid": pid, "opts": o.to_json()}))).unwrap_or(Value::Null)
 }
 
+/// A check that re-configures a writer behind `make_writer`'s back (public fields, setters) calls this:
+/// the noted options no longer describe the writer, so its dumps are not judged.
+pub fn forget_writer() {
+    CUR.with(|c| *c.borrow_mut() = None);
+}
+
 pub fn note_writer(pid: i32, o: &DumpOpts) {
     CUR.with(|c| *c.borrow_mut() = Some((pid, o.clone(), 0)));
 }
@@ -551,6 +557,69 @@ pub fn c12(pid: i32, o: &DumpOpts, bytes: &[u8]) -> Vec<(String, String)> {
         }
         if got[o8..].iter().any(|b| *b != 0) {
             fails.push(("trailing-partial-word-not-zero".into(), format!("{tag}: the trailing partial word is not zero")));
+        }
+    }
+    fails
+}
+
+/// C20 (the part that does not depend on how the writer merged memory-map lines): with stack skipping
+/// on and a principal address inside a mapping, a thread whose instruction pointer or one of whose
+/// aligned stack words (at or above sp) lies inside the memory-map LINE holding the principal address
+/// keeps its stack; a thread with neither inside the whole contiguous run of lines around it loses
+/// it; records and contexts stay.  (Between the two the answer depends on the merge and is left to C08/C13.)
+pub fn c20(pid: i32, o: &DumpOpts, bytes: &[u8]) -> Vec<(String, String)> {
+    let mut fails = Vec::new();
+    let (true, Some(pa)) = (o.skip_unref, o.principal) else { return fails };
+    if !alive(pid) {
+        return fails;
+    }
+    let maps = maps_of(pid);
+    let pa = pa as u64;
+    let Some(li) = maps.iter().position(|l| l.start <= pa && pa < l.end) else { return fails };
+    let (nlo, nhi) = (maps[li].start, maps[li].end);
+    let (mut a, mut b) = (li, li);
+    while a > 0 && maps[a - 1].end == maps[a].start {
+        a -= 1;
+    }
+    while b + 1 < maps.len() && maps[b + 1].start == maps[b].end {
+        b += 1;
+    }
+    let (wlo, whi) = (maps[a].start, maps[b].end);
+    let d = Dump::parse(bytes);
+    for th in &d.threads {
+        let Some(cb) = d.loc_bytes(bytes, &th.context) else {
+            fails.push(("context-missing".into(), format!("thread {} has no CPU context", th.tid)));
+            continue;
+        };
+        if cb.len() != off::SIZE {
+            continue;
+        }
+        let (sp, ip) = (off::u64_at(cb, off::RSP), off::u64_at(cb, off::RIP));
+        let Some(sl) = maps.iter().find(|l| l.start <= sp && sp < l.end) else { continue };
+        if sl.perms[0] != b'r' {
+            continue;
+        }
+        let Some(mem) = read_target(pid, sp, (sl.end - sp) as usize) else { continue };
+        let mut sure_in = ip >= nlo && ip < nhi;
+        let mut maybe_in = ip >= wlo && ip < whi;
+        let mut o8 = (((sp + 7) & !7) - sp) as usize;
+        while o8 + 8 <= mem.len() {
+            let w = u64::from_le_bytes(mem[o8..o8 + 8].try_into().unwrap());
+            sure_in |= w >= nlo && w < nhi;
+            maybe_in |= w >= wlo && w < whi;
+            o8 += 8;
+        }
+        let included = th.stack.size > 0;
+        if sure_in && !included {
+            if std::env::var("MDV_DEBUG").is_ok() {
+                let soft = d.raw_bytes(bytes, mdv_core::mdparse::ST_MOZ_SOFT_ERRORS).map(|b| String::from_utf8_lossy(b).into_owned()).unwrap_or_default();
+                let ips: Vec<String> = d.threads.iter().map(|t| d.loc_bytes(bytes, &t.context).map(|c| format!("{}:ip={:#x},sp={:#x},stack={}", t.tid, off::u64_at(c, off::RIP), off::u64_at(c, off::RSP), t.stack.size)).unwrap_or_default()).collect();
+                eprintln!("DEBUG c20: tid {} pid {pid} pa {pa:#x} line {} threads {:?} soft {}", th.tid, maps[li].text(), ips, soft.replace('\n', " "));
+            }
+            fails.push(("stack-dropped-but-referenced".into(), format!("thread {} (sp {sp:#x}, ip {ip:#x}) references the principal mapping {} but its stack was dropped", th.tid, maps[li].text())));
+        }
+        if !maybe_in && included {
+            fails.push(("stack-kept-but-unreferenced".into(), format!("thread {} (sp {sp:#x}, ip {ip:#x}) references nothing in [{wlo:#x}, {whi:#x}) around the principal address but its stack was kept", th.tid)));
         }
     }
     fails
